@@ -242,6 +242,12 @@ type c16Worker struct {
 	ch       chan any
 	ports    []*eval.Port
 	marks    int
+	fstat    os.FileInfo // identity of the pristine scratch file
+	// the current context: reused for the next case as long as it is
+	// observably pristine (same *Ns, same snapshot), otherwise rebuilt
+	ev       *eval.Evaler
+	base     *eval.Ns
+	baseSnap string
 }
 
 const c16FileOrig = "orig\n"
@@ -266,15 +272,58 @@ func c16WorkerFor(l *vk.Local) *c16Worker {
 	if w.err, err = os.OpenFile(filepath.Join(dir, "err"), os.O_RDWR|os.O_CREATE|os.O_TRUNC|os.O_APPEND, 0o644); err != nil {
 		panic(err)
 	}
-	if err := os.WriteFile(w.fpath, []byte(c16FileOrig), 0o644); err != nil {
-		panic(err)
-	}
+	w.resetFile()
 	w.ports = []*eval.Port{eval.DummyInputPort, {File: w.out, Chan: w.ch}, {File: w.err, Chan: eval.BlackholeChan}}
 	c16Workers.Store(l, w)
 	return w
 }
 
 var c16Base string
+
+func (w *c16Worker) resetFile() {
+	os.Remove(w.fpath)
+	if err := os.WriteFile(w.fpath, []byte(c16FileOrig), 0o644); err != nil {
+		panic(err)
+	}
+	var err error
+	if w.fstat, err = os.Lstat(w.fpath); err != nil {
+		panic(err)
+	}
+}
+
+// fileState returns the content of the scratch file and whether it is
+// untouched (same inode, size and modification time as when it was written; a
+// redirection opens with O_TRUNC and so changes the modification time).
+func (w *c16Worker) fileState() (string, bool) {
+	st, err := os.Lstat(w.fpath)
+	if err == nil && os.SameFile(st, w.fstat) && st.Size() == w.fstat.Size() && st.ModTime().Equal(w.fstat.ModTime()) {
+		return c16FileOrig, true
+	}
+	b, err := os.ReadFile(w.fpath)
+	content := string(b)
+	if err != nil {
+		content = "<" + err.Error() + ">"
+	}
+	w.resetFile()
+	return content, false
+}
+
+// context returns the pristine context for the next case.
+func (w *c16Worker) context() (*eval.Evaler, string) {
+	if w.ev == nil {
+		w.ev = w.newEvaler()
+		w.base = w.ev.Global()
+		w.baseSnap = c16Snapshot(w.base)
+	}
+	return w.ev, w.baseSnap
+}
+
+// release decides whether the context may be reused.
+func (w *c16Worker) release(snap string, dirty bool) {
+	if dirty || w.ev.Global() != w.base || snap != w.baseSnap {
+		w.ev = nil
+	}
+}
 
 // newEvaler returns a fresh Evaler whose global namespace holds g, f and
 // c16mark~, and which knows the str module.
@@ -348,19 +397,7 @@ func (w *c16Worker) collect() c16Obs {
 	}
 	o.stdout = c16Drain(w.out)
 	o.stderr = c16Drain(w.err)
-	b, err := os.ReadFile(w.fpath)
-	if err != nil {
-		o.file = "<" + err.Error() + ">"
-	} else {
-		o.file = string(b)
-	}
-	o.fileOK = o.file == c16FileOrig
-	if !o.fileOK {
-		os.Remove(w.fpath)
-		if err := os.WriteFile(w.fpath, []byte(c16FileOrig), 0o644); err != nil {
-			panic(err)
-		}
-	}
+	o.file, o.fileOK = w.fileState()
 	o.marks = w.marks
 	w.marks = 0
 	return o
@@ -405,37 +442,38 @@ const (
 	c16RouteDefault = iota // Evaler.Eval, cfg.Global == nil (mutates the Evaler's global)
 	c16RouteCfg            // Evaler.Eval, cfg.Global = the Evaler's global
 	c16RouteBuiltin        // the eval builtin: eval <quoted code>
+	c16RouteOnEnd          // the eval builtin with an &on-end callback that inspects the namespace it is given
 	c16NRoutes
 )
 
-var c16RouteNames = []string{"eval", "eval-cfg-global", "builtin-eval"}
+var c16RouteNames = []string{"eval", "eval-cfg-global", "builtin-eval", "builtin-eval-on-end"}
 
 // c16RunCase runs one program through Check and one evaluation route and
 // judges it. exp is the documented expectation (c16Unknown = not judged).
 // Returns the class key.
 func c16RunCase(c *vk.Ctx, w *c16Worker, route int, src string, exp int, label string) string {
 	rn := c16RouteNames[route]
-	ev := w.newEvaler()
-	snap0 := c16Snapshot(ev.Global())
+	ev, snap0 := w.context()
 
-	// 1. static check
+	// 1. static check (it has no ports; its effects could only show in the
+	// scratch file, the call counter and the namespace)
 	var pe, ce error
-	if p := vk.Try(func() { pe, _, ce = ev.Check(parse.Source{Name: "c16", Code: src}, w.err) }); p != "" {
+	if p := vk.Try(func() { pe, _, ce = ev.Check(parse.Source{Name: "c16", Code: src}, nil) }); p != "" {
 		c.Violate("panic-in-check:"+vk.PanicSite(p), fmt.Sprintf("Check(%q) panicked: %s", src, p), src)
 		w.collect()
+		w.release("", true)
 		return rn + "/check-panic"
 	}
 	checkBad := pe != nil || ce != nil
-	o1 := w.collect()
-	o1.stderr = "" // deprecation warnings may legitimately be written by Check
-	if !o1.quiet() {
-		c.Violate("check-had-effects", fmt.Sprintf("Check(%q) had effects: values=%v stdout=%q file=%q calls=%d", src, o1.values, o1.stdout, o1.file, o1.marks), src)
+	if content, ok := w.fileState(); !ok || w.marks != 0 {
+		c.Violate("check-had-effects", fmt.Sprintf("Check(%q) had effects: file=%q calls=%d", src, content, w.marks), src)
+		w.marks = 0
 	}
-	if s := c16Snapshot(ev.Global()); s != snap0 {
+	if s := c16Snapshot(ev.Global()); s != snap0 || ev.Global() != w.base {
 		c.Violate("check-changed-global", fmt.Sprintf("Check(%q) changed the global namespace:\nbefore:\n%safter:\n%s", src, snap0, s), src)
 		// continue with a fresh context so that the evaluation is judged on its own
-		ev = w.newEvaler()
-		snap0 = c16Snapshot(ev.Global())
+		w.release("", true)
+		ev, snap0 = w.context()
 	}
 
 	// 2. evaluation in the same context
@@ -447,19 +485,24 @@ func c16RunCase(c *vk.Ctx, w *c16Worker, route int, src string, exp int, label s
 		cfg.Global = ev.Global()
 	case c16RouteBuiltin:
 		code = "eval " + parse.Quote(src)
+	case c16RouteOnEnd:
+		// the callback has no observable effect of its own
+		code = "eval &on-end={|n| nop (keys $n) } " + parse.Quote(src)
 	}
 	if p := vk.Try(func() { err = ev.Eval(parse.Source{Name: "c16", Code: code}, cfg) }); p != "" {
 		c.Violate("panic-in-eval:"+vk.PanicSite(p), fmt.Sprintf("[%s] evaluating %q panicked: %s", rn, code, p), code)
 		w.collect()
+		w.release("", true)
 		return rn + "/eval-panic"
 	}
 	kind := c16ErrKind(err)
 	msgErr := err
-	if route == c16RouteBuiltin {
+	if route == c16RouteBuiltin || route == c16RouteOnEnd {
 		// the eval builtin raises the parse / compilation error as an exception
 		if kind != "ok" && kind != "exception" {
 			c.Violate("builtin-eval-outer-static-error", fmt.Sprintf("%q itself failed with a %s error: %v", code, kind, err), code)
 			w.collect()
+			w.release("", true)
 			return rn + "/outer-static"
 		}
 		if exc, ok := err.(eval.Exception); ok {
@@ -472,6 +515,7 @@ func c16RunCase(c *vk.Ctx, w *c16Worker, route int, src string, exp int, label s
 	static := kind == "parse" || kind == "compile"
 	o := w.collect()
 	snap1 := c16Snapshot(ev.Global())
+	w.release(snap1, false)
 
 	// 3. no part of code with a static error ran
 	if static {
@@ -727,7 +771,7 @@ func TestVerifC16(t *testing.T) {
 		pres := c16Seqs(allEff, maxPre)
 		sufs := c16Seqs(allEff, maxSuf)
 
-		c.Rule(fmt.Sprintf("family A: every program <prefix><sep><wrapped offender><sep><suffix> with prefix = every sequence of <=%d of the %d effect statements, offender = each of %d offending/control statements, wrapper = each of %d placements (%s), suffix = every sequence of <=%d effect statements, sep in {newline, '; '}, plus every pure effect sequence; each run on a fresh Evaler through 3 routes (Evaler.Eval with default global, with cfg.Global, eval builtin), Check first. Family B: every sequence of <=%d word tokens over %d tokens %q joined by spaces, routes eval and builtin-eval. Family C: elvish -compileonly [-json] -c / elvish -c through prog.Run on prefix(<=1 of 7 shell effects) x offender x wrapper x suffix(<=1). class = (route, outcome kind, first error message, effects or quiet) plus offender kind x wrapper x expectation",
+		c.Rule(fmt.Sprintf("family A: every program <prefix><sep><wrapped offender><sep><suffix> with prefix = every sequence of <=%d of the %d effect statements, offender = each of %d offending/control statements, wrapper = each of %d placements (%s), suffix = every sequence of <=%d effect statements, sep = newline, and also '; ' for prefixes shorter than the bound, plus every pure effect sequence; each run in a pristine Evaler context through 3 routes (Evaler.Eval with default global, with cfg.Global, eval builtin) and, for prefixes of <=1 statement, the eval builtin with an &on-end callback; Check first. Family B: every sequence of <=%d word tokens over %d tokens %q joined by spaces, route eval, and builtin-eval for sequences shorter than the bound. Family C: elvish -compileonly [-json] -c / elvish -c through prog.Run on prefix(<=1 of 7 shell effects) x offender x wrapper x suffix(<=1). class = (route, outcome kind, first error message, effects or quiet) plus offender kind x wrapper x expectation",
 			maxPre, len(c16Effects), len(c16Offenders), len(c16Wraps), "bare, lambda, fn-uncalled, if-true, if-false, try, capture, pipeline, lambda-arg", maxSuf, maxTok, len(c16Tokens), c16Tokens))
 		c.Assume("observed effect channels: value channel and byte file of stdout, byte file of stderr, one scratch file that programs redirect to, a Go command counting its calls, and the Evaler's global namespace (names, variable identity, repr of values); other effects (environment variables, cwd, other files) are not observed",
 			"'same context' = the same fresh Evaler state (global g, f, c16mark~; str module) for Check and for evaluation; Check runs first and must itself leave the context unchanged",
@@ -789,7 +833,8 @@ func TestVerifC16(t *testing.T) {
 				atomic.AddInt64(&notJudged, 1)
 			}
 			for si, sep := range seps {
-				if si > 0 && len(ca.pre)+len(ca.suf) == 0 && (off == nil || !strings.Contains(off.code, "; ")) {
+				if si > 0 && (len(ca.pre) >= maxPre || (len(ca.pre)+len(ca.suf) == 0 && (off == nil || !strings.Contains(off.code, "; ")))) {
+					// the second separator is used with prefixes shorter than the bound only
 					continue
 				}
 				src := c16Build(ca.pre, off, wr, ca.suf, sep, effCode)
@@ -797,6 +842,9 @@ func TestVerifC16(t *testing.T) {
 					src = strings.ReplaceAll(src, "; ", "\n")
 				}
 				for route := 0; route < c16NRoutes; route++ {
+					if route == c16RouteOnEnd && len(ca.pre) > 1 {
+						continue // the &on-end route runs with prefixes of <=1 statement
+					}
 					cls := c16RunCase(c, w, route, src, exp, label)
 					atomic.AddInt64(&nA, 1)
 					l.Case(fmt.Sprintf("A/%s/%d/%s", label, exp, cls))
@@ -820,6 +868,9 @@ func TestVerifC16(t *testing.T) {
 			}
 			src := strings.Join(parts, " ")
 			for _, route := range []int{c16RouteDefault, c16RouteBuiltin} {
+				if route == c16RouteBuiltin && len(idx) >= maxTok {
+					continue // the eval builtin route runs sequences shorter than the bound
+				}
 				cls := c16RunCase(c, w, route, src, c16Unknown, "tokens")
 				l.Case("B/" + cls)
 			}
